@@ -91,13 +91,6 @@ impl Obj {
     pub fn finished(&self) -> bool {
         self.car.is_none() && self.stops >= self.burst()
     }
-    pub fn block_sizes(&self) -> Vec<u64> {
-        let (al, asm, nl, nb) = flute::verif_hooks::block_partitioning(self.bl as u64, self.len(), self.e as u64);
-        (0..nb).map(|i| if i < nl { al } else { asm }).collect()
-    }
-    pub fn len(&self) -> u64 {
-        0
-    }
 }
 
 #[derive(Default)]
@@ -178,7 +171,7 @@ impl SchedEngine {
     pub fn ticks_for(&self, now: u64) -> String {
         let mut s = String::new();
         for o in self.objs.values() {
-            if o.removed.is_some() || o.gone || o.in_transfer || !o.wants_tick() {
+            if o.removed.is_some() || o.gone || !o.wants_tick() {
                 continue;
             }
             s.push_str(&format!(" {}:{}", o.toi, self.tick_of(o, now)));
@@ -441,7 +434,7 @@ impl SchedEngine {
         let ticks_now: BTreeMap<u64, (u64, u64)> = self
             .objs
             .values()
-            .filter(|ob| ob.wants_tick() && !ob.in_transfer && ob.removed.is_none() && !ob.gone)
+            .filter(|ob| ob.wants_tick() && ob.removed.is_none() && !ob.gone)
             .map(|ob| {
                 let dur = match ob.target {
                     Some(('d', d)) => d,
